@@ -221,7 +221,15 @@ class Harness:
         if self.rich:
             for sx, sy, sz in itertools.product((1, -1), repeat=3):
                 deltas.append([sx * 1, sy * 2, sz * 3])
-        return {'targets': uniq, 'deltas': deltas}
+        # absolute moves that name only some of the axes: the others take the documented default 0
+        names = ('x', 'y', 'z')[:self.nargs]
+        partial = [{}]
+        for i, n in enumerate(names):
+            if d3[i] > 0:
+                partial.append({n: hi[i]})
+        if self.nargs == 3 and d3[0] > 0 and d3[2] > 0:
+            partial.append({'x': centre[0], 'z': hi[2]})
+        return {'targets': uniq, 'deltas': deltas, 'partial': partial if self.rich else partial[:2]}
 
     # ------------------------------------------------------------------------------------------------
     def fresh(self):
@@ -242,6 +250,7 @@ class Harness:
             else:
                 ops += [['move', k, d] for d in self._menu['deltas']]
                 ops += [['move_to', k, t] for t in self._menu['targets']]
+                ops += [['move_to_kw', k, kw] for kw in self._menu['partial']]
                 ops.append(['remove', k])
                 ops.append(['remove_obj', k])
                 # placing an agent that is already in the world again (elsewhere): rejected, nothing moves
@@ -354,6 +363,13 @@ class Harness:
                     raise Violation(f'rejected move_to {p} changed the position', expected=before,
                                     observed=self._read(w, k))
             w.last = (kind, ok, w.pos[k])
+        elif kind == 'move_to_kw':
+            kw = op[2]
+            w.env.move_to(a, **kw)
+            p = [kw.get(n, 0) for n in ('x', 'y', 'z')]
+            w.pos[k] = tuple(Fr(v) for v in p)
+            self._expect_at(w, k, w.pos[k], f'move_to with only {sorted(kw)} given ({kw}; the other axes default to 0)')
+            w.last = (kind, True, w.pos[k])
         elif kind == 'readd':
             p = op[2]
             try:
@@ -536,13 +552,20 @@ def two_movers_case(case):
         env = model.environment = mk_world(model, kind, dims, wrap)
         a, b = Core.Agent('a', model), Core.Agent('b', model)
         env.add_agent(a, *pa[:h.nargs])
-        env.add_agent(b, *pb[:h.nargs])
+        env_b = env
+        if case.get('two_worlds'):
+            # the second mover lives in a world of its own (same shape, another model): scratch state shared by all
+            # worlds of the process would still be shared
+            m2 = new_model(seed=2)
+            env_b = m2.environment = mk_world(m2, kind, dims, wrap)
+            b = Core.Agent('b', m2)
+        env_b.add_agent(b, *pb[:h.nargs])
         state['a'], state['b'] = a, b
 
-        def call(agent, c):
-            fn = env.move if c[0] == 'move' else env.move_to
+        def call(world, agent, c):
+            fn = world.move if c[0] == 'move' else world.move_to
             return lambda: fn(agent, *c[1][:h.nargs])
-        return call(a, ca), call(b, cb)
+        return call(env, a, ca), call(env_b, b, cb)
 
     def judge(k, box_a, box_b):
         for who, box, start, c in (('a', box_a, pa, ca), ('b', box_b, pb, cb)):
@@ -617,13 +640,14 @@ def run(ctx):
         for wi in range(len(TWO_MOVERS)):
             for wrap in (False, True):
                 for ai, bi in ((0, 1), (1, 2), (2, 3), (3, 0)):
-                    case = {'leg': 'two_movers', 'world': wi, 'wrap': wrap, 'a': ai, 'b': bi}
-                    ctx.traces += 1
-                    try:
-                        nt += hbfs._guard(two_movers_case, case)
-                    except Violation as v:
-                        ctx.report(dict(case, k=getattr(v, 'case_k', 0)), v)
-                        return
+                    for two in (False, True):
+                        case = {'leg': 'two_movers', 'world': wi, 'wrap': wrap, 'a': ai, 'b': bi, 'two_worlds': two}
+                        ctx.traces += 1
+                        try:
+                            nt += hbfs._guard(two_movers_case, case)
+                        except Violation as v:
+                            ctx.report(dict(case, k=getattr(v, 'case_k', 0)), v)
+                            return
         ctx.transitions += nt
         ctx.leg('two_movers', schedules=nt, note='E5: two threads move two agents of one world, one preemption at every '
                                                  'library line of the first call')
